@@ -19,9 +19,10 @@ Histories (`<ops>`, `;`-separated nat lists):
   `GPWrap.run` then `GPWrap.predict` with the class's exact posterior of `conditioned`
 * `state <kind:mo|mlist> <m> <obj> <ops>` → `<held>|<conditioned>|<init 0/1>|<upToDate 0/1>`
   (sample ids; model list: one row per objective)
-* `helperops mo <fixed 0/1> <train batches> <hasinit 0/1> <init ids>` and
-  `helperops mlist <m> <obj> <fixed 0/1> <train batches j,s…> <hasinit 0/1> <init ids>` → the op
-  sequence `GPWrap.helperOps` / `helperOpsFixed` in the `<ops>` encoding
+* `helperops mo <current 0/1> <train batches> <hasinit 0/1> <init ids>` and
+  `helperops mlist <m> <obj> <current 0/1> <train batches j,s…> <hasinit 0/1> <init ids>` → the op
+  sequence `GPWrap.helperOps` (1: what the helpers do) / `helperOpsConditional` (0: the sequence
+  before the fix, final update only with initial samples) in the `<ops>` encoding
 In `hist`, a correlated model conditioned on no data answers `E` (the property exempts it).
 -/
 namespace VOPy.Drv.C15
@@ -202,7 +203,7 @@ def handle (args : List String) : String :=
     match parseBool fixed, parseNatss tr, parseBool hasinit, parseNats ini with
     | some f, some T, some h, some I =>
       let i : Option (List Nat) := if h then some I else none
-      encodeOps (if f then helperOpsFixed T i else helperOps T i)
+      encodeOps (if f then helperOps T i else helperOpsConditional T i)
     | _, _, _, _ => bad
   | ["helperops", "mlist", m, obj, fixed, tr, hasinit, ini] =>
     match m.toNat?, parseNats obj, parseBool fixed, parseNatss tr, parseBool hasinit, parseNats ini with
@@ -216,7 +217,7 @@ def handle (args : List String) : String :=
       | some tr, some idx =>
         if idx.all (· < m) then
           let i : Option (Route × List Nat) := if h then some (Route.each idx, I) else none
-          encodeOpsML (if f then helperOpsFixed tr i else helperOps tr i)
+          encodeOpsML (if f then helperOps tr i else helperOpsConditional tr i)
         else bad
       | _, _ => bad
     | _, _, _, _, _, _ => bad
